@@ -1,0 +1,85 @@
+//go:build verif
+// +build verif
+
+package destination
+
+import (
+	"sync/atomic"
+	"time"
+)
+
+// VerifHook, when set, is called from the goroutine that just reached one of
+// the named points of the relay loop / connection writer / redo collector /
+// spool writer. The installed function may block (scheduler gate).
+// Verification builds only; nil means disabled. Install it before any
+// destination is running and do not change it while one runs.
+var VerifHook func(name string, args ...interface{})
+
+var verifHookOn int32
+
+// VerifSetHook installs (or, with nil, removes) the hook function.
+func VerifSetHook(f func(name string, args ...interface{})) {
+	if f == nil {
+		atomic.StoreInt32(&verifHookOn, 0)
+		VerifHook = nil
+		return
+	}
+	VerifHook = f
+	atomic.StoreInt32(&verifHookOn, 1)
+}
+
+func verifEvent(name string, args ...interface{}) {
+	if atomic.LoadInt32(&verifHookOn) == 0 {
+		return
+	}
+	if f := VerifHook; f != nil {
+		f(name, args...)
+	}
+}
+
+// VerifSetKeepSafe changes the period for which new connections keep written
+// lines for replay (10s in production) and returns the previous value.
+func VerifSetKeepSafe(d time.Duration) time.Duration {
+	old := keepsafe_keep_duration
+	keepsafe_keep_duration = d
+	return old
+}
+
+// VerifDestFields are the tuning fields of a Destination, incl. the unexported ones.
+type VerifDestFields struct {
+	Addr, Instance, SpoolDir, Key, RouteName  string
+	Spool, Pickle                             bool
+	PeriodFlush, PeriodReConn                 time.Duration
+	ConnBufSize, IoBufSize                    int
+	SpoolBufSize                              int
+	SpoolMaxBytesPerFile, SpoolSyncEvery      int64
+	SpoolSyncPeriod, SpoolSleep, UnspoolSleep time.Duration
+}
+
+func (dest *Destination) VerifFields() VerifDestFields {
+	return VerifDestFields{
+		Addr: dest.Addr, Instance: dest.Instance, SpoolDir: dest.SpoolDir, Key: dest.Key, RouteName: dest.RouteName,
+		Spool: dest.Spool, Pickle: dest.Pickle,
+		PeriodFlush: dest.periodFlush, PeriodReConn: dest.periodReConn,
+		ConnBufSize: dest.connBufSize, IoBufSize: dest.ioBufSize,
+		SpoolBufSize:         dest.SpoolBufSize,
+		SpoolMaxBytesPerFile: dest.SpoolMaxBytesPerFile, SpoolSyncEvery: dest.SpoolSyncEvery,
+		SpoolSyncPeriod: dest.SpoolSyncPeriod, SpoolSleep: dest.SpoolSleep, UnspoolSleep: dest.UnspoolSleep,
+	}
+}
+
+// VerifSpoolDepth returns the depth of the disk queue behind the spool (-1 without spool).
+func (dest *Destination) VerifSpoolDepth() int64 {
+	if dest.spool == nil {
+		return -1
+	}
+	return dest.spool.queue.Depth()
+}
+
+// VerifSpoolBuffered returns the number of lines sitting in the spool's in-memory channels.
+func (dest *Destination) VerifSpoolBuffered() int {
+	if dest.spool == nil {
+		return -1
+	}
+	return len(dest.spool.InRT) + len(dest.spool.queueBuffer)
+}
